@@ -1,0 +1,23 @@
+//go:build verif
+
+package ouroboros
+
+// Contracts for /verif (contract-based deductive verification). Comment-only.
+
+// C17: which sides of the mini-protocols a connection runs. The initiator (client) side of every
+// mini-protocol is started only when this endpoint is not a server or full-duplex operation was both
+// requested locally and negotiated in the handshake; the responder (server) side is registered and
+// started only when this endpoint is a server or full-duplex operation was both requested and
+// negotiated. (Each of the call sites is verified on its own from an arbitrary state at a
+// dominating block: the function as a whole has too many independent branches to enumerate.)
+//@ func (c *Connection) setupConnection() (err)
+//@   props C17
+//@   attr safe off
+//@   attr local 3
+//@   attr inline 0
+//@   callback call:(*Client).Start requires initiator: ((c.fullDuplex && handshakeFullDuplex) || !c.server)
+//@   callback call:(*Server).Start requires responder: ((c.fullDuplex && handshakeFullDuplex) || c.server)
+//@   callback call:(*Server).EnsureRegistered requires responder: ((c.fullDuplex && handshakeFullDuplex) || c.server)
+//@   callback call:(*Protocol).Start/Client requires initiator: ((c.fullDuplex && handshakeFullDuplex) || !c.server)
+//@   callback call:(*Protocol).Start/Server requires responder: ((c.fullDuplex && handshakeFullDuplex) || c.server)
+//@   callback call:(*Protocol).EnsureRegistered/Server requires responder: ((c.fullDuplex && handshakeFullDuplex) || c.server)
